@@ -122,10 +122,16 @@ def f_subplan(sub=1, where="sub", inputs="explicit"):
 
 # -- F-amend -----------------------------------------------------------------------------------
 
-def f_amend(version="inp", extra="static", order="amend_first"):
-    """W: ./w.py amends extra.txt, reads it and writes w.out."""
+def f_amend(version="inp", extra="static", order="amend_first", how="amend"):
+    """W: ./w.py amends extra.txt, reads it and writes w.out.
+    how="declared": the plan declares extra.txt as an input of W and the script only reads it (a
+    dependency that moved from the script to the plan)."""
     w = []
-    if version == "none":
+    if how == "declared" and version != "none" and extra != "tree":
+        w = [["read", "extra.txt"], ["write", "w.out", ["extra.txt"]]]
+        if version == "inp_out":
+            w = [["amend", {"out": ["side.txt"]}], *w, ["write", "side.txt", []]]
+    elif version == "none":
         w = [["write", "w.out", []]]
     else:
         am = {"inp": ["extra.txt"]}
@@ -157,7 +163,10 @@ def f_amend(version="inp", extra="static", order="amend_first"):
         }
     elif extra == "absent":
         pass
-    root.append(["run", "./w.py", {"out": ["w.out"]}])
+    kw = {"out": ["w.out"]}
+    if how == "declared" and version != "none":
+        kw["inp"] = ["extra.txt"]
+    root.append(["run", "./w.py", kw])
     files.update({"plan.py": script(root), "w.py": script(w)})
     return files
 
@@ -262,6 +271,7 @@ def f_resdetached(kind="fail", slow_len=4):
 
 def f_prodcons(consumer="amend_first", producer_by="plan", declared=0, tree=0, late=0, pv=1, cv=1):
     """P writes o.txt in two actions from src.txt; C uses o.txt (amended or declared).
+    tree=1: C's amendment also names t/x.txt under the static tree t/ (plan-defined producer only).
     late=1: the plan declares C first and P only after two idle actions (so C may already run
     when P is (re-)declared); pv is an argument of P's command (another pv is another step with
     another result, the script itself is unchanged), cv the version of C's script."""
@@ -273,7 +283,15 @@ def f_prodcons(consumer="amend_first", producer_by="plan", declared=0, tree=0, l
                   ["write", "c.out", ["o.txt"]]]
     else:
         c_prog = [["read", "o.txt"], ["write", "c.out", ["o.txt"]]]
+    if tree:
+        # the same amendment also names a file under a static tree: it is UNCONFIRMED until its
+        # hash job is done, and the request waits for that job between two transactions
+        for act in c_prog:
+            if act[0] == "amend":
+                act[1]["inp"] = [*act[1]["inp"], "t/x.txt"]
     files = {"src.txt": "src\n", "p.py": script(p_prog), "c.py": script(c_prog, v=cv)}
+    if tree:
+        files["t/x.txt"] = "x\n"
     p_step = ["run", "./p.py" if pv == 1 else f"./p.py {pv}", {"inp": ["src.txt"], "out": ["o.txt"]}]
     if late == 2:
         # a producer without any input: nothing re-confirms it when the plan runs again, so the
@@ -284,7 +302,8 @@ def f_prodcons(consumer="amend_first", producer_by="plan", declared=0, tree=0, l
         c_kw["inp"] = ["o.txt"]
     c_step = ["run", "./c.py", c_kw]
     if producer_by == "plan":
-        root = [["static", "src.txt", "p.py", "c.py"], *([c_step, ["nop"], ["nop"], p_step] if late else [c_step, p_step])]
+        root = [["static", "src.txt", "p.py", "c.py", *(["t/"] if tree else [])],
+                *([c_step, ["nop"], ["nop"], p_step] if late else [c_step, p_step])]
     else:
         root = [["static", "src.txt", "p.py", "c.py", "plan2.py"], c_step, ["plan", "./plan2.py"]]
         files["plan2.py"] = script([p_step])
@@ -572,6 +591,17 @@ def f_planuse(use=1, chain=2, src="x", psrc="c"):
     return {"plan.py": script(root), "sub.py": script(sub), "src.txt": src + "\n", "cfg.txt": psrc + "\n"}
 
 
+def f_failwrite(fail=0, present=1, src="x", outdir="."):
+    """W: ./w.py writes w.out from src.txt; with fail=1 it writes other content and then fails.
+    present=0: the plan no longer defines W."""
+    out = "w.out" if outdir == "." else f"{outdir}/w.out"
+    w = [["write", out, ["src.txt"], "failing"], ["exit", 1]] if fail else [["write", out, ["src.txt"]]]
+    root = [["static", "src.txt", "w.py"]]
+    if present:
+        root.append(["run", "./w.py", {"inp": ["src.txt"], "out": [out]}])
+    return {"plan.py": script(root), "w.py": script(w), "src.txt": src + "\n"}
+
+
 def f_latestatic(gap=1, cfg="c"):
     """The top plan consumes cfg.txt (amended), starts a sub-plan and only afterwards declares the
     static file late.txt, which a step of the sub-plan (./work.py) amends. An edit of cfg.txt
@@ -601,7 +631,7 @@ DOMAINS = {
     "f_glob": {"present": (("a", "b"), ("a",), ("a", "b", "c"), (), ("a", "zz")), "mode": ("tree", "pattern"),
                "subs": ("none", "ab")},
     "f_amend": {"version": ("inp", "none", "inp_out"), "extra": ("static", "built", "absent", "optional"),
-                "order": ("amend_first", "read_first")},
+                "order": ("amend_first", "read_first"), "how": ("amend", "declared")},
     "f_env": {"how": ("declared", "amended"), "v": (1, 2), "ovr": ("none", "o", "p")},
     "f_vol": {"outdir": ("out/deep", "out2"), "log": ("vol", "out", "none"),
               "workdir": (".", "wd", "wd/in"), "present": (1, 0), "adopt": ("none", "tree", "file"),
@@ -614,6 +644,7 @@ DOMAINS = {
     "f_dynout": {"target": ("dyn1", "dyn2"), "consumer": ("none", "dyn1", "dyn2"), "sub": (0, 1)},
     "f_hold": {"nesting": (2, 1), "v": (1, 2)},
     "f_detfinish": {"broken": (1, 0), "lead": (0, 2)},
+    "f_failwrite": {"fail": (0, 1), "present": (1, 0), "src": ("x", "y"), "outdir": (".", "gen/sub")},
     "f_planuse": {"use": (1, 0), "chain": (2, 1), "src": ("x", "y"), "psrc": ("c", "d")},
 }
 ENV_DOMAIN = {"f_env": {"VERIF_X": (None, "1", "2", "")}}
